@@ -585,6 +585,11 @@ func (x *Exec) effectsOf(nodes []ast.Node, st *St, fr *Frame, tainted map[*types
 								x.fieldWriteEffect(se, sel, f, bind, depth, pureLoc, addLoc)
 							}
 						}
+						if ix, ok := ast.Unparen(l).(*ast.IndexExpr); ok {
+							if t := f.info.TypeOf(ix.X); t != nil && isMapType(t) {
+								addLoc("$g.maps", nil) // a map element is written
+							}
+						}
 					}
 				case *ast.IncDecStmt:
 					if se, ok := ast.Unparen(s.X).(*ast.SelectorExpr); ok {
@@ -1030,6 +1035,7 @@ func (x *Exec) rangeStmt(n *ast.RangeStmt, st *St, fr *Frame, k func(*St)) {
 	x.eval(n.X, st, fr, func(st *St, rv *Val) {
 		define := n.Tok == token.DEFINE
 		isInt := false
+		isMapRange := false
 		var seq *Term
 		var count *Term
 		switch {
@@ -1040,12 +1046,30 @@ func (x *Exec) rangeStmt(n *ast.RangeStmt, st *St, fr *Frame, k func(*St)) {
 			seq = rv.T
 			count = SeqLen(seq)
 		case rv.T != nil && (rv.T.Sort == SSetStr || isMapType(rty)):
-			x.rangeSet(n, rv, st, fr, k)
-			return
+			// range over a map[string]struct{}: the keys in an arbitrary order without repetition (the set as it is at loop entry)
+			if n.Value != nil {
+				oos("range over a map with a value variable at %s", x.W.pos(n.Pos()))
+			}
+			set := x.mapSet(st, rv)
+			ks := x.fresh("$keys", SSeqStr)
+			xv := Var("x$", SStr)
+			x.assume(st, Forall([]*Term{xv}, [][]*Term{{SeqContains(ks, xv)}, {Select(set, xv)}}, Iff(SeqContains(ks, xv), Select(set, xv)), "mapkeys"))
+			iv, jv := Var("i$", SInt), Var("j$", SInt)
+			x.assume(st, Forall([]*Term{iv, jv}, [][]*Term{{SeqAt(ks, iv), SeqAt(ks, jv)}},
+				Implies(And(Cmp("<=", IntLit(0), iv), Cmp("<", iv, jv), Cmp("<", jv, SeqLen(ks))), Neq(SeqAt(ks, iv), SeqAt(ks, jv))), "mapkeys_distinct"))
+			isMapRange = true
+			seq = ks
+			count = SeqLen(ks)
 		default:
 			oos("range over unsupported value at %s", x.W.pos(n.Pos()))
 		}
 		bindIter := func(st *St, i *Term) {
+			if isMapRange {
+				if n.Key != nil {
+					x.assignTo(n.Key, &Val{T: SeqAt(seq, i), Ty: types.Typ[types.String]}, st, fr, define)
+				}
+				return
+			}
 			if n.Key != nil {
 				x.assignTo(n.Key, &Val{T: i, Ty: types.Typ[types.Int]}, st, fr, define)
 			}
@@ -1081,13 +1105,23 @@ func (x *Exec) rangeStmt(n *ast.RangeStmt, st *St, fr *Frame, k func(*St)) {
 			x.Notes = append(x.Notes, "loop "+key+" has no invariant")
 		}
 		intTy := types.Typ[types.Int]
-		x.checkInvariants(st, fr, c, key, "init", map[string]*Val{"$i": {T: IntLit(0), Ty: intTy}}, n.Pos())
+		var keysVal *Val
+		if isMapRange {
+			keysVal = &Val{T: seq, Ty: types.NewSlice(types.Typ[types.String])}
+		}
+		withKeys := func(m map[string]*Val) map[string]*Val {
+			if keysVal != nil {
+				m["$keys"] = keysVal
+			}
+			return m
+		}
+		x.checkInvariants(st, fr, c, key, "init", withKeys(map[string]*Val{"$i": {T: IntLit(0), Ty: intTy}}), n.Pos())
 		x.assertWF(st, "loop#"+key, x.W.pos(n.Pos()))
 		hv := st.clone()
 		x.loopHavoc(hv, fr, []ast.Node{n.Body}, key)
 		// exit
 		ex := hv.clone()
-		x.assumeInvariants(ex, fr, c, key, map[string]*Val{"$i": {T: count, Ty: intTy}})
+		x.assumeInvariants(ex, fr, c, key, withKeys(map[string]*Val{"$i": {T: count, Ty: intTy}}))
 		x.assumeWF(ex)
 		if !ex.dead {
 			ex.note("range %s: exit after %s iterations", key, short(count))
@@ -1098,7 +1132,7 @@ func (x *Exec) rangeStmt(n *ast.RangeStmt, st *St, fr *Frame, k func(*St)) {
 		body := hv
 		x.assume(body, Cmp("<=", IntLit(0), i))
 		x.assume(body, Cmp("<", i, count))
-		x.assumeInvariants(body, fr, c, key, map[string]*Val{"$i": {T: i, Ty: intTy}})
+		x.assumeInvariants(body, fr, c, key, withKeys(map[string]*Val{"$i": {T: i, Ty: intTy}}))
 		x.assumeWF(body)
 		if body.dead {
 			return
@@ -1106,7 +1140,7 @@ func (x *Exec) rangeStmt(n *ast.RangeStmt, st *St, fr *Frame, k func(*St)) {
 		bindIter(body, i)
 		body.note("range %s: arbitrary iteration %s", key, i.Op)
 		endIter := func(st *St) {
-			x.checkInvariants(st, fr, c, key, "keep", map[string]*Val{"$i": {T: Arith("+", i, IntLit(1)), Ty: intTy}}, n.Pos())
+			x.checkInvariants(st, fr, c, key, "keep", withKeys(map[string]*Val{"$i": {T: Arith("+", i, IntLit(1)), Ty: intTy}}), n.Pos())
 			x.assertWF(st, "loop#"+key+"/keep", x.W.pos(n.Pos()))
 		}
 		lfr := fr.withLoop(k, endIter, label)
